@@ -26,6 +26,7 @@ package cmd
 
 import (
 	"context"
+	"encoding/json"
 	"errors"
 	"fmt"
 	"io"
@@ -47,8 +48,10 @@ import (
 	"github.com/nuts-foundation/nuts-node/auth/services"
 	"github.com/nuts-foundation/nuts-node/auth/services/notary"
 	"github.com/nuts-foundation/nuts-node/core"
+	"github.com/nuts-foundation/nuts-node/discovery"
 	httpclient "github.com/nuts-foundation/nuts-node/http/client"
 	"github.com/nuts-foundation/nuts-node/jsonld"
+	"github.com/nuts-foundation/nuts-node/vcr"
 	"gopkg.in/yaml.v3"
 	"pgregory.net/rapid"
 	"verif.local/h"
@@ -271,8 +274,12 @@ type c20KV struct {
 }
 
 type c20Paths struct {
-	dir, datadir, cert, trust, authKeys, sqlite string
+	dir, datadir, cert, trust, authKeys, sqlite, discoDir string
 }
+
+// discovery service definitions whose server lives elsewhere: requests for them are forwarded by the node's long-lived
+// discovery HTTP client, one to a plain-http endpoint, one to an https endpoint
+const c20DiscoHTTP, c20DiscoHTTPS = "urn:verif:discovery:plain-http", "urn:verif:discovery:https"
 
 const c20AuthorizedKey = "ssh-ed25519 AAAAC3NzaC1lZDI1NTE5AAAAIAqjXHmwbCS1JFjjqZbV9R/DwH3e9lvtqLuY8xUihXzy ed25519@test.local\n"
 
@@ -316,6 +323,18 @@ func c20Prepare(x *h.Ctx) c20Paths {
 	cp(h.RepoPath("test/pki/truststore.pem"), p.trust)
 	x.NoErr(os.WriteFile(p.authKeys, []byte(c20AuthorizedKey), 0o600), "authorized_keys")
 	x.NoErr(os.MkdirAll(filepath.Dir(p.sqlite), 0o755), "sql dir")
+	// discovery definitions: the repository's valid example with another id and endpoint
+	p.discoDir = filepath.Join(dir, "discovery")
+	x.NoErr(os.MkdirAll(p.discoDir, 0o755), "discovery dir")
+	tmpl, err := os.ReadFile(h.RepoPath("discovery/test/valid/eoverdracht.json"))
+	x.NoErr(err, "discovery definition fixture")
+	var def map[string]any
+	x.NoErr(json.Unmarshal(tmpl, &def), "discovery definition fixture")
+	for i, d := range [][2]string{{c20DiscoHTTP, "http://discovery.verif-remote.nl/usecase/x"}, {c20DiscoHTTPS, "https://discovery.verif-remote.nl/usecase/y"}} {
+		def["id"], def["endpoint"] = d[0], d[1]
+		b, _ := json.Marshal(def)
+		x.NoErr(os.WriteFile(filepath.Join(p.discoDir, fmt.Sprintf("def%d.json", i)), b, 0o600), "discovery definition")
+	}
 	return p
 }
 
@@ -335,6 +354,7 @@ func (c c20Case) concrete(p c20Paths) []c20KV {
 	// always: fresh datadir, quiet logging
 	add("datadir", "datadir", p.datadir)
 	add("verbosity", "verbosity", "error")
+	add("discovery", "discovery.definitions.directory", p.discoDir)
 
 	if u := c.val("url"); u != "unset" {
 		cu, ok := c20URLs[u]
@@ -527,6 +547,7 @@ var c20EnvMu sync.Mutex
 
 type c20Boot struct {
 	system  *core.System
+	dials   *c20Recorder // every dial of every HTTP client the engines built on http/client's transports during Configure
 	loadErr error
 	confErr error
 }
@@ -585,6 +606,19 @@ func c20Start(x *h.Ctx, c c20Case, p c20Paths, strict bool) (c20Boot, func()) {
 	// globals the node writes while configuring
 	savedStrict, savedCaching, savedSafe := httpclient.StrictMode, httpclient.DefaultCachingTransport, httpclient.SafeHttpTransport
 	httpclient.StrictMode = false // value of a fresh process
+	// The engines keep the clients they construct in Configure for the life of the process, and those hold the transport
+	// that client.SafeHttpTransport named at that moment: install the dial recorder BEFORE the system is created.
+	dials := &c20Recorder{}
+	dialFn := func(kind string) func(ctx context.Context, network, addr string) (net.Conn, error) {
+		return func(ctx context.Context, network, addr string) (net.Conn, error) {
+			dials.mu.Lock()
+			dials.reqs = append(dials.reqs, kind+" "+addr)
+			dials.mu.Unlock()
+			return nil, errC20NoNetwork
+		}
+	}
+	httpclient.SafeHttpTransport = &http.Transport{DialContext: dialFn("plain"), DialTLSContext: dialFn("tls"), DisableKeepAlives: true}
+	httpclient.DefaultCachingTransport = httpclient.SafeHttpTransport
 
 	system := CreateSystem(func() {})
 	command := CreateCommand(system)
@@ -593,7 +627,7 @@ func c20Start(x *h.Ctx, c c20Case, p c20Paths, strict bool) (c20Boot, func()) {
 		restoreEnv()
 		x.Fatalf("server command not found: %v", err)
 	}
-	b := c20Boot{system: system}
+	b := c20Boot{system: system, dials: dials}
 	if err := srv.ParseFlags(args); err != nil {
 		restoreEnv()
 		x.Fatalf("flag parsing failed (harness generated an unknown flag?): %v args=%v", err, args)
@@ -871,6 +905,57 @@ func c20Probe(x *h.Ctx, c c20Case, b c20Boot, strict bool) {
 		x.Violate("strict-iam-client-accepts:"+strings.Join(iamAccepted, "+"), "the IAM client handed out by a node configured in strict mode (auth.IAMClient()) applies non-strict endpoint rules: %s", strings.Join(iamDetails, "; "))
 	}
 
+	// --- the long-lived clients the engines built in their own Configure (before the HTTP engine, registered last, wired
+	//     strict mode): each attempts a plain-http and a https request; dials are recorded by the transport installed
+	//     before the system was created ------------------------------------------------------------------------------
+	plainDials := func(l []string) (n int) {
+		for _, d := range l {
+			if strings.HasPrefix(d, "plain ") {
+				n++
+			}
+		}
+		return
+	}
+	engineClient := func(name string, plainHTTP bool, call func() error) {
+		b.dials.take()
+		err := call()
+		dials := b.dials.take()
+		target := "https"
+		if plainHTTP {
+			target = "plain-http"
+		}
+		x.Classf("engine-client:%s:%s:%s", name, target, mode)
+		switch {
+		case plainHTTP && strict && (plainDials(dials) > 0 || err == nil):
+			x.Violate("strict-capability-present:plain-http-request:"+name, "strict-mode node: the %s client (constructed in the engine's Configure) connected to a plain-http endpoint: dials=%v err=%v", name, dials, err)
+		case plainHTTP && !strict && plainDials(dials) == 0:
+			x.Violate("request-refused:nonstrict:plain-http:"+name, "non-strict node: the %s client did not connect to the plain-http endpoint: dials=%v err=%v", name, dials, err)
+		case !plainHTTP && (len(dials) == 0 || plainDials(dials) > 0):
+			x.Violate("request-refused:"+mode+":https:"+name, "%s node: the %s client did not connect over TLS to the https endpoint: dials=%v err=%v", mode, name, dials, err)
+		}
+	}
+	if disco, ok := b.system.FindEngineByName("discovery").(*discovery.Module); ok && disco != nil {
+		engineClient("discovery", true, func() error { _, _, _, err := disco.Get(ctx, c20DiscoHTTP, 0); return err })
+		engineClient("discovery", false, func() error { _, _, _, err := disco.Get(ctx, c20DiscoHTTPS, 0); return err })
+	} else {
+		x.Fatalf("discovery engine not found")
+	}
+	if vcrEngine, ok := b.system.FindEngineByName("vcr").(vcr.VCR); ok && vcrEngine != nil && vcrEngine.Verifier() != nil {
+		for i, sc := range []string{"http", "https"} {
+			cred := c20StatusListCredential(x, fmt.Sprintf("%s://status.verif-remote.nl/statuslist/%d", sc, i+1))
+			engineClient("vcr-statuslist", sc == "http", func() error {
+				if sc == "http" && strict {
+					// the credential status check fails softly: Verify does not report it; judged by the dials only
+					_ = vcrEngine.Verifier().Verify(cred, true, false, nil)
+					return errC20NoNetwork
+				}
+				return vcrEngine.Verifier().Verify(cred, true, false, nil)
+			})
+		}
+	} else {
+		x.Fatalf("vcr engine not found or not configured")
+	}
+
 	// --- v1 relying party: 'authorization server endpoint must be HTTPS when in strict mode' (dial-level recorder) ----
 	dialRec := &c20Recorder{}
 	dial := func(kind string) func(ctx context.Context, network, addr string) (net.Conn, error) {
@@ -896,6 +981,23 @@ func c20Probe(x *h.Ctx, c c20Case, b c20Boot, strict bool) {
 		}
 	}
 	x.Classf("probed:%s", mode)
+}
+
+// c20StatusListCredential is a credential whose revocation status lives in a StatusList2021 credential at statusURL.
+func c20StatusListCredential(x *h.Ctx, statusURL string) vc.VerifiableCredential {
+	raw := fmt.Sprintf(`{
+ "@context": ["https://www.w3.org/2018/credentials/v1", "https://w3id.org/vc/status-list/2021/v1", "https://nuts.nl/credentials/v1"],
+ "id": "did:web:issuer.verif-remote.nl#c20",
+ "type": ["VerifiableCredential", "NutsOrganizationCredential"],
+ "issuer": "did:web:issuer.verif-remote.nl",
+ "issuanceDate": "2024-01-01T00:00:00Z",
+ "credentialSubject": {"id": "did:web:holder.verif-remote.nl", "organization": {"name": "Verif", "city": "Nowhere"}},
+ "credentialStatus": {"id": "%s#7", "type": "StatusList2021Entry", "statusPurpose": "revocation", "statusListIndex": "7", "statusListCredential": "%s"},
+ "proof": {"type": "JsonWebSignature2020", "created": "2024-01-01T00:00:00Z", "proofPurpose": "assertionMethod", "verificationMethod": "did:web:issuer.verif-remote.nl#key", "jws": "e30..c2ln"}
+}`, statusURL, statusURL)
+	var cred vc.VerifiableCredential
+	x.NoErr(json.Unmarshal([]byte(raw), &cred), "status list credential fixture")
+	return cred
 }
 
 // ---------------------------------------------------------------------------------------------------------------------
